@@ -80,6 +80,8 @@ class ReadFileExecutor(Executor):
     def call(self, st, f, args, kwargs, node):
         if isinstance(f, VTuple) and len(f.items) == 2 and all(isinstance(x, VStr) for x in f.items):
             st.ghost["dispatch"] = st.ghost.get("dispatch", ()) + ((f, tuple(args)),)
+            # keyword arguments of the same calls, index-aligned with "dispatch" (added for C07's archive member site)
+            st.ghost["dispatch_kw"] = st.ghost.get("dispatch_kw", ()) + (dict(kwargs or {}),)
             self.exc_any(st.fork(), f"{self.loc(node)} extractor call")
             return [(st, VUnk("results"))]
         return super().call(st, f, args, kwargs, node)
